@@ -377,6 +377,8 @@ def main(tier):
     jobs += [(job_impedance_add, a) for a in ((8, 8), (8, 12), (8, 5), (8, 2), (9, 4))]
     jobs += [(job_txt_loader, (2,)), (job_impedance_reader, (2,)), (job_h5_reader, ()), (job_tracks_index, (4, 1, 8, 2))]
     jobs += [(job_field_more_buckets, (4,)), (job_h5_ctor_lengths, (4, 2, 8, 24)), (job_h5_ctor_lengths, (4, 2, 24, 8))]
+    import c11
+    jobs += [(c11.job_reader, (3,)), (c11.job_reader, (4,)), (c11.job_reader, (4, 2))]      # the loader's contract main relies on: exactly one bunch, grid sized from the file before construction (main sizes every bucket table from the configuration and cross-checks the grid size only)
     jobs += [(job_upper_power_of_two, ()), (job_field_precondition, (4,)), (job_start_grid, (4,)), (job_track_coords, (8, (-6, 6), (-6, 6.5))), (job_track_coords, (9, (-4, 7), (-6, 6)))]
     jobs += [(job_padded_lengths, (n, nb, pf)) for n, nb in ((4, 4), (5, 5), (4, 1), (8, 3)) for pf in (True, False)]
     jobs += [(c16.job_factory_file, (n, L, gs, w)) for n, L in ((8, 3), (8, 0), (5, 9)) for gs, w in ((0, False), (-1, True))]      # impedance built from a table: holds as many samples as it reports (what later readers index by)
